@@ -7,7 +7,8 @@
    What the renderer reads of the raised exception is its exn_case x (class name, message, frames with their token
    streams - or the fact that tokenize / reading the file raised) and the solutions sols the provider repository returns
    for it: they are inputs, universally quantified - the theorems hold whatever they are.  The report is rendered in
-   simple mode exactly for library exceptions (simple = e_clikit e), on the error output o at the verbosity of c. *)
+   simple mode exactly for library exceptions (simple = e_clikit e), on the output o it is written to (io.write_line: the STANDARD output of the io, not its error
+   output) at the verbosity of c. *)
 From Coq Require Import Lia.
 From Clikit Require Import Base.Prelude Base.Res Model.Conv Model.Markup Model.OutputM Model.Trace Model.Run
   Proofs.MarkupLemmas Proofs.OutputLemmas Proofs.TraceLemmas Proofs.LiteralLemmas Proofs.TraceRenderLemmas
@@ -62,7 +63,7 @@ Proof. intros H. unfold run. rewrite H. reflexivity. Qed.
 
 (* 2a. the main statement: EVERY exception that reaches run() (not KeyboardInterrupt), catching on - whatever the
    exception case (its frames, what tokenize did on their sources) and the solutions: the report is printed, the run ends
-   with status 1, nothing escapes.  Hypotheses: the error output (out_ok, "error" and "b" resolve) and, when it
+   with status 1, nothing escapes.  Hypotheses: the output the report goes to (out_ok, "error" and "b" resolve) and, when it
    decorates, ESC-free texts. *)
 Theorem run_exception_rendered sty c o x sols debug ls h e calls :
   handle debug ls h = (inr e, calls) -> e_keyboard e = false ->
